@@ -290,6 +290,18 @@ def decide(prop, tier, seed, keep=None):
         # Kani leaves (complete / bounded), sequential: one cargo build shared by all harnesses
         kres = kani.run_for_property(prop, {n: pu for n, pu in mine.items()}, tier, work)
         results.extend(kres)
+        # escalation: a Verus unit that ended undecided (anchor lost, construct Verus cannot read, resource limit)
+        # falls back on its bounded Kani second opinions (thorough-tier harnesses on the REAL function): a failing
+        # harness is a violation with the verifier's concrete counterexample; a passing one leaves the unit undecided
+        if tier != 'thorough':
+            und = {r['unit'] for r in results if r['status'] == 'undecided' and ':' not in r['unit']}
+            esc = {n: pu for n, pu in mine.items() if n in und and pu[1].get('kani')}
+            if esc:
+                already = {o['id'] for r in kres for o in r['obligations']}
+                for r in kani.run_units_kani(esc, 'thorough', work, only_props=[prop], tag=prop + '_esc'):
+                    r['unit'] += ':escalation'
+                    r['obligations'] = [o for o in r['obligations'] if o['id'] not in already]
+                    results.append(r)
         if tier == 'thorough':
             results.extend(thorough_extras(prop, mine, fl, seed, work))
     finally:
